@@ -309,5 +309,5 @@ pub fn gen_raw(cur: &mut Cursor) -> (RefPos, &'static str) {
 
 pub fn gen_raw_case(cur: &mut Cursor) -> Value {
     let (p, src) = gen_raw(cur);
-    raw_to_json(&p, src)
+    crate::common::with_twin(cur, raw_to_json(&p, src))
 }
